@@ -21,6 +21,8 @@ TEMPLATES = {
     "jpf": ("JPF {L}", (), "far"),
     "callf": ("CALLF {L}", (), "far"),
     "mvxl": ("MV X, {L}", (), "far"),
+    "mvdl": ("MV A, [X+{L}]", (), "disp8"),  # a label as an 8-bit displacement (label addresses below 0x100 in these skeletons)
+    "mvdn": ("MV A, [X+{0}]", (8,), None),
     "defb2": ("defb {0}, {1}", (16, 8), None),
     "defw": ("defw {0}", (20,), None),
     "defl": ("defl {0}, {1}", (24, 24), None),
@@ -30,6 +32,7 @@ TEMPLATES = {
     "defs1": ("defs 1", (), None),
     "defs3": ("defs 3", (), None),
     "defm": ('defm "ABC"', (), None),
+    "defme": ('defm "A\\nB"', (), None),  # a backslash escape is kept verbatim by the grammar: 4 bytes A \\ n B
     "org": (".ORG {0}", (20,), None),
     "secd": ("SECTION data", (), None),
     "secc": ("SECTION code", (), None),
@@ -74,6 +77,8 @@ def expected_data(kind, vals):
         return [0, 0, 0]
     if kind == "defm":
         return [0x41, 0x42, 0x43]
+    if kind == "defme":
+        return [0x41, 0x5C, 0x6E, 0x42]
     return None
 
 
@@ -177,7 +182,9 @@ def evaluate(skel, numeral, make_assembler, K, alone):
             else:
                 lv = labels[lop]
                 text1 = TEMPLATES[kind][0].format(L=numeral(f"a{i}_L", 24, lv)[0])
-                if ref == "near":
+                if ref == "disp8":
+                    obl.append((f"label-reference-encodes-definition:{kind}", K.eq(b[-1], lv & 0xFF) if len(b) >= 1 else K.false))
+                elif ref == "near":
                     obl.append((f"near-reference-accepted-only-within-page:{kind}", K.eq(lv >> 16, addr[i] >> 16)))
                     obl.append((f"label-reference-encodes-definition:{kind}", K.and_([K.eq(b[1], lv & 0xFF), K.eq(b[2], (lv >> 8) & 0xFF)]) if len(b) == 3 else K.false))
                 else:
